@@ -24,6 +24,8 @@ func checkC14(c *Ctx) {
 	r145(c)
 	r146(c, "R14.6 wrappers-keep-hijack-and-flush")
 	r147(c)
+	// the limits and flags are per-service settings that outlive the process: each must reach the state file
+	persistedFields(c, "R14.8 buffering-settings-survive-restart", "TargetOptions", nil)
 }
 
 func r141(c *Ctx) {
